@@ -354,11 +354,23 @@ def check(ctx):
            detail="" if len(mte_res) >= 2 else "the result store / late hit under the lock is not followed by move_to_end(key): the placeholder keeps the "
                                                   "position of the first call and a fresh result can be evicted first", by=("move_to_end(key)",))
     # bypass
-    byp = ctx.sites(call, "if self._maxsize == 0: $*B") or ctx.sites(call, "if 0 == self._maxsize: $*B")
-    first_real = [s for s in fn.body if not (isinstance(s, ast.Expr) and isinstance(s.value, ast.Constant)) and not isinstance(s, ast.Pass)]
-    okb = bool(first_real) and isinstance(first_real[0], ast.If) and "self._maxsize" in ast.unparse(first_real[0].test)
-    ctx.ob("R20-e", call, "maxsize == 0 bypasses the cache before anything is stored", okb, node=first_real[0] if first_real else None,
-           detail="" if okb else "the maxsize == 0 test is no longer the first thing __call__ does", by=("if self._maxsize == 0",))
+    def is_byp(frag, node):
+        return node.kind == "test" and "self._maxsize" in ast.unparse(node.node) and isinstance(node.node, ast.Compare) and \
+            any(isinstance(c_, ast.Constant) and c_.value == 0 for c_ in [node.node.left] + node.node.comparators)
+
+    def touches_cache(frag, node):
+        if frag is None:
+            return False
+        return any(isinstance(x, ast.Name) and x.id in (CE, "lru_cache_items") for x in [frag] + list(own_walk(frag)))
+
+    def step_b(st, e, c):
+        if e == "byp":
+            return True
+        if e == "touch" and not st:
+            return Bad("the cache is consulted or written before the maxsize == 0 bypass was tested (maxsize=0 must not cache anything)")
+        return st
+
+    ctx.paths("R20-e", call, [("byp", [is_byp]), ("touch", [touches_cache])], step_b, False, None, instance="maxsize == 0 bypasses the cache before anything is looked up or stored")
 
     # ---- R20-f key and value fidelity ------------------------------------------------------------------------------------------------------------------
     kdefs = [n for n in own_walk(fn) if (isinstance(n, (ast.Assign, ast.AnnAssign)) and any(isinstance(t, ast.Name) and t.id == KEY for t in (n.targets if isinstance(n, ast.Assign) else [n.target])))
